@@ -54,5 +54,171 @@ pub proof fn lemma_dec5(n: u32, d0: u8, d1: u8, d2: u8, d3: u8, d4: u8) by (bit_
         ((d0 & 0x7f) as u32) | (((d1 & 0x7f) as u32) << 7) | (((d2 & 0x7f) as u32) << 14) | (((d3 & 0x7f) as u32) << 21) | ((d4 as u32) << 28) == n,
 {}
 
+
+// ---------------------------------------------------------------------------
+// entries, framing, payload (C01/C09/C14 block layout, written from the C09 statement)
+// ---------------------------------------------------------------------------
+pub type Ent = (Seq<u8>, Seq<u8>);
+
+pub open spec fn frame(e: Ent) -> Seq<u8> {
+    leb(e.0.len()) + leb(e.1.len()) + e.0 + e.1
+}
+
+pub open spec fn payload(es: Seq<Ent>) -> Seq<u8>
+    decreases es.len()
+{
+    if es.len() == 0 { Seq::<u8>::empty() } else { payload(es.drop_last()) + frame(es.last()) }
+}
+
+pub open spec fn ent_small(e: Ent) -> bool { e.0.len() <= u32::MAX && e.1.len() <= u32::MAX }
+
+pub open spec fn ents_small(es: Seq<Ent>) -> bool { forall|i: int| 0 <= i < es.len() ==> ent_small(#[trigger] es[i]) }
+
+/// byte offset at which entry i starts in payload(es)
+pub open spec fn start_of(es: Seq<Ent>, i: int) -> int { payload(es.subrange(0, i)).len() as int }
+
+pub proof fn lemma_payload_push(es: Seq<Ent>, e: Ent)
+    ensures payload(es.push(e)) == payload(es) + frame(e),
+{
+    assert(es.push(e).drop_last() == es);
+}
+
+pub proof fn lemma_payload_prefix_len(es: Seq<Ent>, i: int)
+    requires 0 <= i <= es.len(),
+    ensures payload(es.subrange(0, i)).len() <= payload(es).len(),
+    decreases es.len() - i,
+{
+    if i < es.len() {
+        let p = es.subrange(0, i + 1);
+        assert(p.drop_last() == es.subrange(0, i));
+        lemma_payload_prefix_len(es, i + 1);
+    } else {
+        assert(es.subrange(0, i) == es);
+    }
+}
+
+// ---------------------------------------------------------------------------
+// lexicographic byte order (C02/C18 oracle)
+// ---------------------------------------------------------------------------
+pub open spec fn lex_cmp(a: Seq<u8>, b: Seq<u8>) -> core::cmp::Ordering
+    decreases a.len()
+{
+    if a.len() == 0 && b.len() == 0 { core::cmp::Ordering::Equal }
+    else if a.len() == 0 { core::cmp::Ordering::Less }
+    else if b.len() == 0 { core::cmp::Ordering::Greater }
+    else if a[0] < b[0] { core::cmp::Ordering::Less }
+    else if a[0] > b[0] { core::cmp::Ordering::Greater }
+    else { lex_cmp(a.drop_first(), b.drop_first()) }
+}
+pub open spec fn lex_lt(a: Seq<u8>, b: Seq<u8>) -> bool { lex_cmp(a, b) == core::cmp::Ordering::Less }
+pub open spec fn lex_le(a: Seq<u8>, b: Seq<u8>) -> bool { lex_cmp(a, b) != core::cmp::Ordering::Greater }
+
+pub proof fn lemma_lex_antisym(a: Seq<u8>, b: Seq<u8>)
+    ensures
+        lex_cmp(a, b) == core::cmp::Ordering::Less <==> lex_cmp(b, a) == core::cmp::Ordering::Greater,
+        lex_cmp(a, b) == core::cmp::Ordering::Equal <==> lex_cmp(b, a) == core::cmp::Ordering::Equal,
+    decreases a.len()
+{
+    if a.len() > 0 && b.len() > 0 && a[0] == b[0] { lemma_lex_antisym(a.drop_first(), b.drop_first()); }
+}
+pub proof fn lemma_lex_eq(a: Seq<u8>, b: Seq<u8>)
+    ensures lex_cmp(a, b) == core::cmp::Ordering::Equal <==> a == b,
+    decreases a.len()
+{
+    if a.len() > 0 && b.len() > 0 && a[0] == b[0] {
+        lemma_lex_eq(a.drop_first(), b.drop_first());
+        if a.drop_first() == b.drop_first() {
+            assert(a =~= seq![a[0]] + a.drop_first());
+            assert(b =~= seq![b[0]] + b.drop_first());
+        }
+    } else if a.len() == 0 && b.len() == 0 {
+        assert(a =~= b);
+    }
+}
+pub proof fn lemma_lex_trans(a: Seq<u8>, b: Seq<u8>, c: Seq<u8>)
+    requires lex_lt(a, b), lex_le(b, c),
+    ensures lex_lt(a, c),
+    decreases a.len()
+{
+    if a.len() > 0 && b.len() > 0 && c.len() > 0 && a[0] == b[0] && b[0] == c[0] {
+        lemma_lex_trans(a.drop_first(), b.drop_first(), c.drop_first());
+    }
+}
+pub proof fn lemma_lex_trans2(a: Seq<u8>, b: Seq<u8>, c: Seq<u8>)
+    requires lex_le(a, b), lex_lt(b, c),
+    ensures lex_lt(a, c),
+    decreases a.len()
+{
+    if a.len() > 0 && b.len() > 0 && c.len() > 0 && a[0] == b[0] && b[0] == c[0] {
+        lemma_lex_trans2(a.drop_first(), b.drop_first(), c.drop_first());
+    }
+}
+
+/// keys strictly ascending (adjacent form, which is what an append-only writer can maintain)
+pub open spec fn sorted_strict(es: Seq<Ent>) -> bool {
+    forall|i: int| 0 <= i < es.len() - 1 ==> lex_lt(#[trigger] es[i].0, es[i + 1].0)
+}
+
+pub proof fn lemma_sorted_pairwise(es: Seq<Ent>, i: int, j: int)
+    requires sorted_strict(es), 0 <= i < j < es.len(),
+    ensures lex_lt(es[i].0, es[j].0),
+    decreases j - i
+{
+    if j > i + 1 {
+        lemma_sorted_pairwise(es, i, j - 1);
+        assert(lex_lt(es[j - 1].0, es[j].0));
+        lemma_lex_trans(es[i].0, es[j - 1].0, es[j].0);
+    }
+}
+
+// ---------------------------------------------------------------------------
+// fixed-width integers (C09: u64/u32 big-endian in blocks, little-endian in the trailer)
+// ---------------------------------------------------------------------------
+pub open spec fn be_bytes(x: nat, n: nat) -> Seq<u8>
+    decreases n
+{
+    if n == 0 { Seq::<u8>::empty() } else { be_bytes(x / 256, (n - 1) as nat).push((x % 256) as u8) }
+}
+pub open spec fn le_bytes(x: nat, n: nat) -> Seq<u8>
+    decreases n
+{
+    if n == 0 { Seq::<u8>::empty() } else { seq![(x % 256) as u8] + le_bytes(x / 256, (n - 1) as nat) }
+}
+pub open spec fn be64(x: u64) -> Seq<u8> { be_bytes(x as nat, 8) }
+pub open spec fn be32(x: u32) -> Seq<u8> { be_bytes(x as nat, 4) }
+pub open spec fn le64(x: u64) -> Seq<u8> { le_bytes(x as nat, 8) }
+pub open spec fn le32(x: u32) -> Seq<u8> { le_bytes(x as nat, 4) }
+
+pub proof fn lemma_be_len(x: nat, n: nat)
+    ensures be_bytes(x, n).len() == n, le_bytes(x, n).len() == n,
+    decreases n
+{
+    if n > 0 { lemma_be_len(x / 256, (n - 1) as nat); }
+}
+
+pub open spec fn be64s(xs: Seq<u64>) -> Seq<u8>
+    decreases xs.len()
+{
+    if xs.len() == 0 { Seq::<u8>::empty() } else { be64s(xs.drop_last()) + be64(xs.last()) }
+}
+pub proof fn lemma_be64s_len(xs: Seq<u64>)
+    ensures be64s(xs).len() == 8 * xs.len(),
+    decreases xs.len()
+{
+    if xs.len() > 0 { lemma_be64s_len(xs.drop_last()); lemma_be_len(xs.last() as nat, 8); }
+}
+
+/// The offset table of a block holding `es` with one slot per `interval` entries (first slot 0, even when empty).
+pub open spec fn footer_len(n: int, interval: int) -> int {
+    if n <= 0 { 1 } else { (n - 1) / interval + 1 }
+}
+pub open spec fn footer_offsets(es: Seq<Ent>, interval: int) -> Seq<u64> {
+    Seq::new(footer_len(es.len() as int, interval) as nat, |j: int| start_of(es, j * interval) as u64)
+}
+/// Uncompressed bytes of a block (C09): entries, offset table (u64 BE), count (u32 BE).
+pub open spec fn block_bytes(es: Seq<Ent>, interval: int) -> Seq<u8> {
+    payload(es) + be64s(footer_offsets(es, interval)) + be32(footer_len(es.len() as int, interval) as u32)
+}
+
 } // mod ghost
 } // verus!
